@@ -4,10 +4,16 @@
 // validation against tla/Faults.tla.
 //
 //	faults run <trace.ndjson>     env: VERIF_TIER, FAULTS_ONLY=<handshake>
+//
+// Besides the standard handshakes (both ends real sessions) the enumeration covers the ABORT paths of
+// negotiation: the side under test is a real session, its peer a script that provokes a stream-level abort
+// (selects a feature that was not advertised / whose prerequisites do not hold / that was negotiated already,
+// sends a stream error, garbage, a bad or mismatching header, a SASL failure, a malformed features list).
 package main
 
 import (
 	"context"
+	"encoding/base64"
 	"crypto/ecdsa"
 	"crypto/elliptic"
 	"crypto/rand"
@@ -22,8 +28,10 @@ import (
 	"io"
 	"math/big"
 	"os"
+	"sort"
 	"strings"
 	"sync"
+	"sync/atomic"
 	"time"
 
 	"mellium.im/sasl"
@@ -134,6 +142,129 @@ func failing(lg *vt.Log) xmpp.StreamFeature {
 	}, "volfail", lg)
 }
 
+// volok: a voluntary feature that succeeds (receiving side: consumes the selection and acknowledges it).
+func volok(lg *vt.Log) xmpp.StreamFeature {
+	return wrap(xmpp.StreamFeature{
+		Name: xml.Name{Space: "urn:vt:volok", Local: "volok"},
+		List: func(ctx context.Context, e xmlstream.TokenWriter, start xml.StartElement) (bool, error) {
+			if err := e.EncodeToken(start); err != nil {
+				return false, err
+			}
+			return false, e.EncodeToken(start.End())
+		},
+		Parse: func(ctx context.Context, d *xml.Decoder, start *xml.StartElement) (bool, interface{}, error) {
+			return false, nil, d.Skip()
+		},
+		Negotiate: func(ctx context.Context, s *xmpp.Session, data interface{}) (xmpp.SessionState, io.ReadWriter, error) {
+			if s.State()&xmpp.Received != 0 {
+				rd := s.TokenReader()
+				defer rd.Close()
+				if _, err := rd.Token(); err != nil {
+					return 0, nil, err
+				}
+				if err := xmlstream.Skip(rd); err != nil {
+					return 0, nil, err
+				}
+				_, err := fmt.Fprint(s.Conn(), "<okvol xmlns='urn:vt:volok'/>")
+				return 0, nil, err
+			}
+			_, err := fmt.Fprint(s.Conn(), "<volok xmlns='urn:vt:volok'/>")
+			return 0, nil, err
+		},
+	}, "volok", lg)
+}
+
+// ---------------------------------------------------------------- abort-provoking peer scripts
+
+// pstep: wait for a piece of the session's output (await: "" nothing, "name" the start tag of an element with
+// that local name, "/name" its end), then send.
+type pstep struct{ await, send string }
+
+const (
+	hdrC = `<?xml version='1.0'?><stream:stream xmlns='jabber:client' xmlns:stream='http://etherx.jabber.org/streams' version='1.0' from='` + user + `@` + domain + `' to='` + domain + `'>`
+	hdrS = `<?xml version='1.0'?><stream:stream xmlns='jabber:client' xmlns:stream='http://etherx.jabber.org/streams' version='1.0' from='` + domain + `' id='sid1'>`
+	nsSE = `urn:ietf:params:xml:ns:xmpp-streams`
+	mech = `<stream:features><mechanisms xmlns='urn:ietf:params:xml:ns:xmpp-sasl'><mechanism>PLAIN</mechanism></mechanisms></stream:features>`
+)
+
+// abortScripts: handshake name -> side under test and the script of its peer.  Every script ends with the
+// peer reading on (it keeps the connection open: the side under test has to end the exchange itself).
+var abortScripts = map[string]struct {
+	side  string
+	steps []pstep
+}{
+	// receiving side under test (standard features sasl + bind on a secure stream)
+	"abort-unadv":     {"server", []pstep{{"", hdrC}, {"/features", `<unk xmlns='urn:vt:unk'/>`}}},
+	"abort-early":     {"server", []pstep{{"", hdrC}, {"/features", `<iq type='set' id='b1'><bind xmlns='urn:ietf:params:xml:ns:xmpp-bind'/></iq>`}}},
+	"abort-again":     {"server", []pstep{{"", hdrC}, {"/features", `<volok xmlns='urn:vt:volok'/>`}, {"/okvol", `<volok xmlns='urn:vt:volok'/>`}}},
+	"abort-streamerr": {"server", []pstep{{"", hdrC}, {"/features", `<stream:error><host-gone xmlns='` + nsSE + `'/></stream:error></stream:stream>`}}},
+	"abort-garbage":   {"server", []pstep{{"", hdrC}, {"/features", `not xml & <<`}}},
+	"abort-badhdr":    {"server", []pstep{{"", strings.Replace(hdrC, "version='1.0'", "version='0.9'", 1)}}},
+	"abort-rehdr": {"server", []pstep{{"", hdrC},
+		{"/features", `<auth xmlns='urn:ietf:params:xml:ns:xmpp-sasl' mechanism='PLAIN'>` + base64.StdEncoding.EncodeToString([]byte("\x00"+user+"\x00"+password)) + `</auth>`},
+		{"/success", strings.Replace(hdrC, "from='"+user+"@", "from='you@", 1)}}},
+	// initiating side under test
+	"abort-s-streamerr": {"client", []pstep{{"stream", hdrS + `<stream:error><host-unknown xmlns='` + nsSE + `'/></stream:error></stream:stream>`}}},
+	"abort-s-badhdr":    {"client", []pstep{{"stream", strings.Replace(hdrS, "version='1.0'", "version='0.9'", 1)}}},
+	"abort-s-hdrfrom":   {"client", []pstep{{"stream", strings.Replace(hdrS, "from='"+domain, "from='other.example", 1) + mech}}},
+	"abort-s-garbage":   {"client", []pstep{{"stream", hdrS + `not xml & <<`}}},
+	"abort-s-badfeat":   {"client", []pstep{{"stream", hdrS + strings.Replace(mech, "<mechanisms", "text<mechanisms", 1)}}},
+	"abort-s-saslfail": {"client", []pstep{{"stream", hdrS + mech},
+		{"/auth", `<failure xmlns='urn:ietf:params:xml:ns:xmpp-sasl'><not-authorized/></failure>`}}},
+}
+
+func isAbort(h string) bool { return strings.HasPrefix(h, "abort-") }
+
+func scriptedPeer(c *vt.Conn, steps []pstep) {
+	d := xml.NewDecoder(c)
+	await := func(what string) bool {
+		for {
+			tok, err := d.RawToken()
+			if err != nil {
+				return false
+			}
+			switch t := tok.(type) {
+			case xml.StartElement:
+				if t.Name.Local == what {
+					return true
+				}
+			case xml.EndElement:
+				if "/"+t.Name.Local == what {
+					return true
+				}
+			}
+		}
+	}
+	for _, st := range steps {
+		if st.await != "" && !await(st.await) {
+			return
+		}
+		if _, err := io.WriteString(c, st.send); err != nil {
+			return
+		}
+	}
+	await("\x00") // read on until the connection ends
+}
+
+// tracked is the transport handed to the side under test: it knows whether the session is inside a transport
+// operation right now (stall confirmation, see runOne).
+type tracked struct {
+	*vt.Conn
+	inRead, inWrite int32
+}
+
+func (t *tracked) Read(p []byte) (int, error) {
+	atomic.AddInt32(&t.inRead, 1)
+	defer atomic.AddInt32(&t.inRead, -1)
+	return t.Conn.Read(p)
+}
+
+func (t *tracked) Write(p []byte) (int, error) {
+	atomic.AddInt32(&t.inWrite, 1)
+	defer atomic.AddInt32(&t.inWrite, -1)
+	return t.Conn.Write(p)
+}
+
 func clientFeatures(h string, lg *vt.Log) []xmpp.StreamFeature {
 	var fs []xmpp.StreamFeature
 	if strings.Contains(h, "tls") {
@@ -153,6 +284,9 @@ func serverFeatures(h string, lg *vt.Log) []xmpp.StreamFeature {
 	}
 	if strings.Contains(h, "volfail") {
 		fs = append(fs, failing(lg))
+	}
+	if h == "abort-again" {
+		fs = append(fs, volok(lg))
 	}
 	perm := func(n *sasl.Negotiator) bool {
 		u, p, _ := n.Credentials()
@@ -235,7 +369,7 @@ func runOne(r Run) ([]vt.Ev, baseline) {
 	octx, ocancel := context.WithTimeout(context.Background(), 20*time.Second)
 	defer ocancel()
 	gates := 0
-	cancelled := false
+	cancelled := false // (under mu)
 	var mu sync.Mutex
 	frozen := false
 	switch r.Fault.Kind {
@@ -249,18 +383,38 @@ func runOne(r Run) ([]vt.Ev, baseline) {
 			sut.CutIn = -1
 		}
 	}
+	// deadline currently in force on the transport of the side under test, per direction (as last set)
+	var dlRead, dlWrite atomic.Value
+	dlRead.Store("clear")
+	dlWrite.Store("clear")
 	sut.OnEvent = func(kind, arg string, n int) {
 		if kind == "fault" {
 			lg.Add(vt.Ev{"ev": "fault", "kind": arg, "n": n})
 		}
+		if kind == "deadline" {
+			i := strings.IndexByte(arg, '-')
+			if which := arg[:i]; which == "both" || which == "read" {
+				dlRead.Store(arg[i+1:])
+			}
+			if which := arg[:i]; which == "both" || which == "write" {
+				dlWrite.Store(arg[i+1:])
+			}
+		}
 	}
+	tsut := &tracked{Conn: sut}
 	sut.Gate = func(point string) {
 		mu.Lock()
 		gates++
 		g := gates
 		mu.Unlock()
-		if r.Fault.Kind == "cancel" && g == r.Fault.At && !cancelled {
+		if r.Fault.Kind == "cancel" && g == r.Fault.At {
+			mu.Lock()
+			was := cancelled
 			cancelled = true
+			mu.Unlock()
+			if was {
+				return
+			}
 			lg.Add(vt.Ev{"ev": "cancel", "at": point, "n": g})
 			if r.Fault.Silent {
 				mu.Lock()
@@ -279,7 +433,7 @@ func runOne(r Run) ([]vt.Ev, baseline) {
 	var cs, ss *xmpp.Session
 	var cerr, serr error
 	origin := jid.MustParse(user + "@" + domain + "/res")
-	client := func(c *vt.Conn, cx context.Context, l *vt.Log) {
+	client := func(c io.ReadWriter, cx context.Context, l *vt.Log) {
 		defer func() {
 			if p := recover(); p != nil {
 				cerr = fmt.Errorf("panic: %v", p)
@@ -291,14 +445,14 @@ func runOne(r Run) ([]vt.Ev, baseline) {
 		}
 		cs, cerr = xmpp.NewSession(cx, jid.MustParse(domain), origin, c, initState(r.Handshake), negotiator(r.Handshake, clientFeatures(r.Handshake, l)))
 	}
-	server := func(c *vt.Conn, cx context.Context, l *vt.Log) {
+	server := func(c io.ReadWriter, cx context.Context, l *vt.Log) {
 		defer func() {
 			if p := recover(); p != nil {
 				serr = fmt.Errorf("panic: %v", p)
 			}
 		}()
 		if r.Handshake == "component" {
-			componentPeer(c, "s3cr3t")
+			componentPeer(c.(*vt.Conn), "s3cr3t")
 			return
 		}
 		ss, serr = xmpp.ReceiveSession(cx, c, initState(r.Handshake), negotiator(r.Handshake, serverFeatures(r.Handshake, l)))
@@ -307,6 +461,10 @@ func runOne(r Run) ([]vt.Ev, baseline) {
 	sutDone := make(chan struct{})
 	go func() {
 		defer close(done)
+		if sc, ok := abortScripts[r.Handshake]; ok {
+			scriptedPeer(other, sc.steps)
+			return
+		}
 		if r.Side == "client" {
 			server(other, octx, nil)
 			if serr != nil || r.Handshake == "component" {
@@ -322,27 +480,43 @@ func runOne(r Run) ([]vt.Ev, baseline) {
 	go func() {
 		defer close(sutDone)
 		if r.Side == "client" {
-			client(sut, ctx, lg)
+			client(tsut, ctx, lg)
 		} else {
-			server(sut, ctx, lg)
+			server(tsut, ctx, lg)
 		}
 	}()
-	stalled := false
-	select {
-	case <-sutDone:
-	case <-time.After(func() time.Duration {
-		if r.Fault.Kind == "cancel" || stallsSeen >= 3 {
-			return stallAfter
-		}
-		return 30 * time.Second
-	}()):
-		stalled = true
-		if stallsSeen++; stallsSeen >= 3 {
-			stallAfter = 2 * time.Second
+	// A call that has not returned when the (generous) watchdog fires is a stall if, at that moment, its context is
+	// cancelled and it sits in a transport operation with no deadline in force: nothing can end that operation
+	// any more (the peer is frozen), whatever the machine load.  A call that is late for any other reason gets
+	// two more periods before it counts.
+	stalled, why := false, ""
+	period := stallAfter
+	if r.Fault.Kind != "cancel" && stallsSeen < 3 {
+		period = 30 * time.Second
+	}
+	for i := 0; i < 3 && !stalled; i++ {
+		select {
+		case <-sutDone:
+			i = 3
+		case <-time.After(period):
+			mu.Lock()
+			c := cancelled
+			mu.Unlock()
+			switch {
+			case c && atomic.LoadInt32(&tsut.inWrite) > 0 && dlWrite.Load() != "past":
+				stalled, why = true, "context cancelled, the call sits in a transport write, write deadline "+dlWrite.Load().(string)
+			case c && atomic.LoadInt32(&tsut.inRead) > 0 && dlRead.Load() != "past":
+				stalled, why = true, "context cancelled, the call sits in a transport read, read deadline "+dlRead.Load().(string)
+			case i == 2:
+				stalled, why = true, "no return after three watchdog periods"
+			}
 		}
 	}
 	if stalled {
-		lg.Add(vt.Ev{"ev": "stall"})
+		if stallsSeen++; stallsSeen >= 3 {
+			stallAfter = 2 * time.Second
+		}
+		lg.Add(vt.Ev{"ev": "stall", "why": why})
 		sut.Close()
 		other.Close()
 		<-sutDone
@@ -381,6 +555,12 @@ func main() {
 		panic(err)
 	}
 	handshakes := []string{"sasl-bind", "tls-sasl-bind", "ws-sasl-bind", "volfail-sasl-bind", "component"}
+	var aborts []string
+	for h := range abortScripts {
+		aborts = append(aborts, h)
+	}
+	sort.Strings(aborts)
+	handshakes = append(handshakes, aborts...)
 	if o := os.Getenv("FAULTS_ONLY"); o != "" {
 		handshakes = strings.Split(o, ",")
 	}
@@ -391,7 +571,7 @@ func main() {
 	emit := func(r Run) {
 		evs, _ := runOne(r)
 		runs++
-		t := tw.Write(vt.Ev{"silent": r.Fault.Silent, "ctxd": r.Fault.Deadline}, evs)
+		t := tw.Write(vt.Ev{"silent": r.Fault.Silent, "ctxd": r.Fault.Deadline, "stuck": r.Fault.Stuck, "aborts": isAbort(r.Handshake)}, evs)
 		tw.Meta(r)
 		classes[fmt.Sprintf("%s/%s/%s", r.Handshake, r.Side, r.Fault.Kind)] = true
 		if len(samples) < 3 && r.Fault.Kind != "none" && runs%37 == 0 {
@@ -403,17 +583,23 @@ func main() {
 		if h == "component" {
 			sides = []string{"client"}
 		}
+		if sc, ok := abortScripts[h]; ok {
+			sides = []string{sc.side}
+		}
 		for _, side := range sides {
 			base := Run{Handshake: h, Side: side, Fault: Fault{Kind: "none"}}
 			evs, bl := runOne(base)
 			runs++
-			tw.Write(vt.Ev{"silent": false, "ctxd": false}, evs)
+			tw.Write(vt.Ev{"silent": false, "ctxd": false, "stuck": false, "aborts": isAbort(h)}, evs)
 			tw.Meta(base)
 			notes = append(notes, vt.Ev{"handshake": h, "side": side, "baseline_ok": bl.ok, "reads": bl.reads, "writes": bl.writes, "bytes_in": bl.bytesIn, "gates": bl.gates})
 			// peer's byte stream ends after every prefix length (quick: every 5th and the first/last 48)
 			for p := 0; p < bl.bytesIn; p++ {
 				if !thorough && p >= 48 && p < bl.bytesIn-48 && p%5 != 0 {
 					continue
+				}
+				if !thorough && isAbort(h) && p >= 8 && p%7 != 0 {
+					continue // the abort handshakes are there for the cancellation / write-fault crossings
 				}
 				emit(Run{h, side, Fault{Kind: "cut", At: p}})
 			}
